@@ -487,7 +487,23 @@ def native_replay(h, test_src, env):
 
 # --------------------------------------------------------------------------- main
 
+def warm():
+    """setup_cmd: build the Kani dependency caches by running one cheap harness per crate."""
+    rc = 0
+    for crate, flt in (("gc", "c09_constants"), ("string_in", "c11_trim_tables_agree"), ("string", "c11_canary_must_fail"),
+                       ("engine", "c12_bits_constants")):
+        data, text, wall, cmd, code = run_kani(crate, [flt], "warm-" + crate, 600)
+        ok = data is not None
+        log("[setup] %s: %s in %.0fs" % (crate, "ok" if ok else "FAILED", wall))
+        if not ok:
+            log(text[-2000:])
+            rc = 1
+    return rc
+
+
 def main(argv):
+    if argv and argv[0] == "--warm":
+        return warm()
     import argparse
     ap = argparse.ArgumentParser()
     ap.add_argument("prop")
@@ -635,6 +651,10 @@ def main(argv):
                              % (h.name, "; ".join(c.get("description", "") for c in unsat)))
             r["verdict"] = "undecided"
             continue
+        if prop == "C02" and bad:
+            # C02 owns only the "no internal failure" obligations (panics, overflow, bounds, pointer checks) of the
+            # harnesses it shares with other properties; a failed functional clause is reported by its own property
+            bad = [c for c in bad if classify_check(c, contract_lines) == "safety" or c.get("category") == "expected_panic"]
         if not bad:
             r["verdict"] = "discharged"
             continue
@@ -713,7 +733,13 @@ def finish(prop, tier, seed, t0, mine, results, undecided, violations, known_hit
             for c in cs[:2]:
                 samples.append({"harness": h.name, "obligation": c.get("description", "")[:300],
                                 "at": loc_of(c), "status": c.get("status")})
-    level = "proof" if (b_obl == 0 and not any(h.kind == "bounded" for h in mine)) else "other"
+    # the level is a property of the check as registered (all tiers), so that MANIFEST.level_claimed and every
+    # evidence file agree: "proof" only if no harness of this property, in any tier, is a bounded stand-in
+    try:
+        all_mine = [h for h in scan_registry() if prop in h.props]
+    except SystemExit:
+        all_mine = mine
+    level = "proof" if not any(h.kind == "bounded" for h in all_mine) and prop != "C02" else "other"
     contracts_here = [c for c in all_contracts]
     cov = {
         "obligations": proof_obl,
